@@ -601,6 +601,8 @@ class Interp:
         while True:
             t = self.truth(self.eval(st.test, env, module))
             if not isinstance(t, bool):
+                if self.models.symbolic_while(self, st, env, module):
+                    return
                 sym += 1
                 if sym > self.ctx.max_symbolic_while:
                     raise Unsupported(f"while loop at line {st.lineno} iterates on a symbolic condition (needs a loop invariant)")
